@@ -28,7 +28,8 @@ type c19Op struct {
 }
 
 // c19Plan: mode "static" (the registry laws over all names / the package source), "lookup" (one
-// arbitrary string), "history" (one goroutine) or "concurrent" (G goroutines, one op list each).
+// arbitrary string), "history" (one goroutine), "concurrent" (G goroutines, one op list each), "hammer" (G goroutines
+// producing back to back) or "storm" (G goroutines decoding back to back into their own instances).
 type c19Plan struct {
 	Mode string    `json:"mode"`
 	Name string    `json:"name,omitempty"`
@@ -286,6 +287,65 @@ func c19Run(p c19Plan) *common.Fail {
 				return f
 			}
 		}
+	case "storm":
+		// G goroutines, each with its own instance, decode their own payloads over and over; what an instance holds
+		// after decoding payload P must be what a decode of P into a fresh instance yields when nothing else runs
+		// (op list of goroutine g: one produce, then its payloads; the repeat count rides in the produce's H)
+		type want struct {
+			ok  bool
+			val reflect.Value
+		}
+		wants := make([][]want, len(p.Ops))
+		for g, ops := range p.Ops {
+			for _, op := range ops[1:] {
+				d, ok := dpt.Produce(ops[0].Name)
+				if !ok {
+					return c19Lookup(ops[0].Name)
+				}
+				err := d.Unpack(unhx(op.Hex))
+				wants[g] = append(wants[g], want{err == nil, snapshot(d)})
+			}
+		}
+		res := make([]*common.Fail, len(p.Ops))
+		var wg sync.WaitGroup
+		start := make(chan struct{})
+		for g := range p.Ops {
+			wg.Add(1)
+			go func(g int) {
+				defer wg.Done()
+				ops := p.Ops[g]
+				d, _ := dpt.Produce(ops[0].Name)
+				pls := make([][]byte, len(ops)-1)
+				for j := range pls {
+					pls[j] = unhx(ops[j+1].Hex)
+				}
+				<-start
+				res[g] = common.Guard(func() *common.Fail {
+					for r := 0; r < ops[0].H; r++ {
+						for j, pl := range pls {
+							err := d.Unpack(pl)
+							w := wants[g][j]
+							if (err == nil) != w.ok {
+								return common.Failf("decode-interference", "g%d (%s): round %d: decoding %x %s while %d other goroutines decode into their own instances; alone it %s",
+									g, ops[0].Name, r, pl, map[bool]string{true: "succeeds", false: "fails"}[err == nil], len(p.Ops)-1, map[bool]string{true: "succeeds", false: "fails"}[w.ok])
+							}
+							if err == nil && !valEqual(deref(d), w.val) {
+								return common.Failf("decode-interference", "g%d (%s): round %d: decoding %x yields %v while %d other goroutines decode into their own instances; alone it yields %v",
+									g, ops[0].Name, r, pl, deref(d).Interface(), len(p.Ops)-1, w.val.Interface())
+							}
+						}
+					}
+					return nil
+				})
+			}(g)
+		}
+		close(start)
+		wg.Wait()
+		for _, f := range res {
+			if f != nil {
+				return f
+			}
+		}
 	case "history", "concurrent":
 		addrs := map[uintptr]c19Addr{}
 		var mu sync.Mutex
@@ -451,6 +511,31 @@ func TestC19(t *testing.T) {
 				plan.Ops = append(plan.Ops, []c19Op{{Op: "calls", H: calls}})
 			}
 			rec.ClassN("hammer-produce-calls", int64(g*calls))
+		case rapid.IntRange(0, 9).Draw(rt, "storm") == 0:
+			// goroutines decode into instances of types with the same main number (they share format helpers)
+			main := types[rapid.IntRange(0, len(types)-1).Draw(rt, "storm-main")].Main
+			if rapid.IntRange(0, 5).Draw(rt, "storm-strings") == 0 {
+				main = rapid.SampledFrom([]int{16, 28}).Draw(rt, "storm-string-main")
+			}
+			var group []typeInfo
+			for _, ti := range types {
+				if ti.Main == main {
+					group = append(group, ti)
+				}
+			}
+			g := rapid.IntRange(2, 12).Draw(rt, "storm-goroutines")
+			reps := rapid.SampledFrom([]int{100, 400, 1500}).Draw(rt, "storm-reps")
+			plan = c19Plan{Mode: "storm"}
+			for i := 0; i < g; i++ {
+				ti := group[rapid.IntRange(0, len(group)-1).Draw(rt, "storm-type")]
+				ops := []c19Op{{Op: "produce", Name: ti.Name, H: reps}}
+				for j := 0; j < rapid.IntRange(1, 3).Draw(rt, "storm-payloads"); j++ {
+					ops = append(ops, c19Op{Op: "unpack", Hex: genPayload(rt, ti)})
+				}
+				plan.Ops = append(plan.Ops, ops)
+			}
+			rec.Class(fmt.Sprintf("storm-main%03d", main))
+			rec.ClassN("storm-decodes", int64(g*reps))
 		case concurrent:
 			g := rapid.IntRange(2, 16).Draw(rt, "goroutines")
 			plan = c19Plan{Mode: "concurrent"}
